@@ -88,10 +88,20 @@ def job_parse(job):
     marker = rng.choice(MARKERS + ["--", "--"]) if parser == "interactions" else rng.choice(MARKERS)
     alt = rng.random() < 0.3     # alternative spellings of the integer fields (03, +3)
     conv = rng.choice(["int", "int", "decimal", "keyerr"])
-    res, G = _obs(lambda: _parse(parser, [render(l, delim, rng, marker, alt) for l in case], delim, directed, marker, conv))
-    cres, C = _obs(lambda: _parse(parser, [render(l, delim, rng, marker) for l in clean], delim, directed, marker, conv))
+    # line terminators: every line ends with a newline / the last one does not (a file without final newline) / none does
+    # (rows handed over without terminators, as generate_interactions yields them)
+    nl = rng.choice(["all", "all", "last_missing", "none"])
+
+    def term(lines):
+        if nl == "none":
+            return [x.rstrip("\n") for x in lines]
+        if nl == "last_missing" and lines:
+            return lines[:-1] + [lines[-1].rstrip("\n")]
+        return lines
+    res, G = _obs(lambda: _parse(parser, term([render(l, delim, rng, marker, alt) for l in case]), delim, directed, marker, conv))
+    cres, C = _obs(lambda: _parse(parser, term([render(l, delim, rng, marker) for l in clean]), delim, directed, marker, conv))
     line = {"op": "parse", "parser": parser, "dir": bool(directed), "lines": case, "delim": repr(delim),
-            "marker": marker, "alt": alt, "conv": conv, "res": res, "cres": cres, "fork": False,
+            "marker": marker, "alt": alt, "conv": conv, "nl": nl, "res": res, "cres": cres, "fork": False,
             "obs": core.observe(G, L, KNOWN, grid) if G is not None else empty,
             "cobs": core.observe(C, L, KNOWN, grid) if C is not None else empty,
             "hdir": bool(G.is_directed()) if G is not None else bool(directed)}
@@ -105,9 +115,16 @@ def job_parse(job):
             plain = [dict(l, com=False, ws=False) for l in clean]
             if parser == "snapshots":
                 plain = [dict(l, toks=l["toks"][:4]) for l in plain]
+            # the ranks do not change when every timestamp of the file is moved by the same amount: large timestamps
+            # (beyond the small-integer range), several rows sharing one
+            off = rng.choice([0, 1000, 10 ** 6])
+            tpos = (2, 3) if parser == "snapshots" else (3,)
+            moved = [dict(l, toks=[[t[0], t[1] + off] if (i in tpos and t[0] == "i") else t for i, t in enumerate(l["toks"])])
+                     for l in plain]
             with os.fdopen(fd, "w") as f:
-                for l in plain:
-                    f.write(render(l, delim, rng, alt=alt))
+                for k, l in enumerate(moved):
+                    row = render(l, delim, rng, alt=alt)
+                    f.write(row.rstrip("\n") if (nl == "last_missing" and k == len(moved) - 1) else row)
             reader = dn.read_snapshots if parser == "snapshots" else dn.read_interactions
             kres, K = _obs(lambda: reader(path, directed=directed, delimiter=delim, nodetype=int, timestamptype=int, keys=True))
         finally:
